@@ -11,7 +11,7 @@
     the drain of callback [j+1]).  [In (a, k, v) (applied (rets b))]: a [read] of this kind
     returned [Some v], taken from the slot holding publication [k], during callback [a]. *)
 From Coq Require Import ZArith List Arith Sorted.
-From KV Require Import Base.Num C06.Model C03.Model.
+From KV Require Import Base.Outcome Base.Num C06.Model C03.Model C04.Transport.
 From KV Require Import C07.Model C07.ProofsBuf C07.ProofsSys C07.ProofsThm C07.ProofsFinal C07.Multi C07.ProofsMulti.
 Import ListNotations.
 
@@ -279,3 +279,44 @@ Proof. exact f_guarded_lost. Qed.
 Theorem guarded_nested_drain_reader_not_drained_refuted : exists h k, In k ts_order /\
   slot_pending (m_slots (ts_guarded_p (h ++ [Callback])) k) <> None.
 Proof. exact f_guarded_reader_not_empty. Qed.
+
+(** ** The decoder-side kinds of a streaming sound ([DecodeScheduler::run]: kinds 0 set_loop_region,
+    1 seek_by, 2 seek_to, read in this order at every step that finds room in the ring; effects on
+    C04's [Transport]; [region_of], [by_idx], [to_idx]: what the command values stand for)
+
+    After any history the decoder's transport is obtained by folding over the steps: the LAST
+    set_loop_region of the step replaces the region, then the LAST seek_by, then the LAST seek_to
+    are applied to the result ([Transport::seek_to] wraps into the region then in force, i.e. the
+    new one).  All the theorems of the multi-kind layer hold for these kinds as for any others. *)
+Theorem decoder_step_is_region_then_seek_by_then_seek_to : forall fuel nf region_of by_idx to_idx t0 h,
+  m_state (m_exec (dec_apply fuel nf region_of by_idx to_idx) dec_order h (m_init (Ok t0))) =
+  fold_left (fun s iv => dec_step_effect fuel nf region_of by_idx to_idx iv s) (closed_intervals h) (Ok t0).
+Proof. exact p_dec_history. Qed.
+
+(** [set_loop_region r] and [seek_to p] picked up at the same step (no seek_by), whatever the order
+    in which they were issued, for every [r], [p] and transport: the position is [p] wrapped into
+    the NEW region [r]; if [r] is no region, the position is exactly [p]. *)
+Theorem decoder_new_region_then_seek_to : forall fuel nf region_of by_idx to_idx t iv vr vp,
+  last_of 0 iv = Some vr -> last_of 1 iv = None -> last_of 2 iv = Some vp ->
+  interval_effect (dec_apply fuel nf region_of by_idx to_idx) dec_order iv (Ok t) =
+  (let! p := match filter_region (region_of vr) with
+             | Some (ls, le) =>
+                 if (to_idx vp >? t_pos t)%Z then wrap_down fuel (to_idx vp) ls le
+                 else wrap_up_lt fuel (to_idx vp) ls le
+             | None => Ok (to_idx vp)
+             end in
+   Ok {| t_pos := p; t_loop := filter_region (region_of vr);
+         t_playing := if (p >=? nf)%Z then false else t_playing t |}) /\
+  (filter_region (region_of vr) = None ->
+   interval_effect (dec_apply fuel nf region_of by_idx to_idx) dec_order iv (Ok t) =
+   Ok {| t_pos := to_idx vp; t_loop := None; t_playing := if (to_idx vp >=? nf)%Z then false else t_playing t |}).
+Proof. exact p_dec_region_then_seek. Qed.
+
+(** Reading the seeks before the loop region violates it: loop 0..2, [set_loop_region(None);
+    seek_to(5)] at the same step lands at 1 (5 wrapped into the region just removed). *)
+Theorem decoder_seeks_before_loop_region_refuted : exists t iv vr vp,
+  last_of 0 iv = Some vr /\ last_of 1 iv = None /\ last_of 2 iv = Some vp /\
+  filter_region (Some vr) = None /\
+  interval_effect (decz_apply 200) dec_order_seeks_first iv (Ok t) <>
+  Ok {| t_pos := fst vp; t_loop := None; t_playing := if (fst vp >=? 200)%Z then false else t_playing t |}.
+Proof. exact f_dec_seeded_refuted. Qed.
